@@ -42,6 +42,8 @@ type Engine struct {
 	siteInstr map[*SiteSpec]ssa.Instruction
 	topFrame *Frame
 	rngCtr   int
+	compPkgs map[string]map[string]bool
+	importsOf map[*types.Package]map[string]bool
 	safeCtr  map[string]int
 	callCtr  map[string]int
 	usedPure map[string]bool
@@ -183,6 +185,76 @@ type heapBinder struct {
 
 // ---- heap components ----
 
+// notePkgs records the packages of the named types a component's cell type mentions. Code of a package
+// that does not (transitively) import one of them cannot name that type, hence cannot write such a cell
+// except through reflection or unsafe (listed assumption where used).
+func (e *Engine) notePkgs(comp string, t types.Type) {
+	if e.compPkgs == nil {
+		e.compPkgs = map[string]map[string]bool{}
+	}
+	if e.compPkgs[comp] != nil {
+		return
+	}
+	set := map[string]bool{}
+	var walk func(t types.Type, d int)
+	walk = func(t types.Type, d int) {
+		if d > 4 {
+			return
+		}
+		switch u := types.Unalias(t).(type) {
+		case *types.Named:
+			if u.Obj().Pkg() != nil {
+				set[u.Obj().Pkg().Path()] = true
+			}
+			if ta := u.TypeArgs(); ta != nil {
+				for i := 0; i < ta.Len(); i++ {
+					walk(ta.At(i), d+1)
+				}
+			}
+		case *types.Pointer:
+			walk(u.Elem(), d+1)
+		case *types.Slice:
+			walk(u.Elem(), d+1)
+		case *types.Map:
+			walk(u.Key(), d+1)
+			walk(u.Elem(), d+1)
+		}
+	}
+	walk(t, 0)
+	e.compPkgs[comp] = set
+}
+
+// invisibleTo: some type of the component is declared in a karpenter package that `from` does not import.
+func (e *Engine) invisibleTo(comp string, from *types.Package) bool {
+	if from == nil {
+		return false
+	}
+	if e.importsOf == nil {
+		e.importsOf = map[*types.Package]map[string]bool{}
+	}
+	imp := e.importsOf[from]
+	if imp == nil {
+		imp = map[string]bool{from.Path(): true}
+		var walk func(p *types.Package)
+		walk = func(p *types.Package) {
+			for _, q := range p.Imports() {
+				if !imp[q.Path()] {
+					imp[q.Path()] = true
+					walk(q)
+				}
+			}
+		}
+		walk(from)
+		e.importsOf[from] = imp
+	}
+	for p := range e.compPkgs[comp] {
+		if strings.HasPrefix(p, modPath+"/") && !imp[p] {
+			return true
+		}
+	}
+	return false
+}
+
 func (e *Engine) fieldComp(structT types.Type, i int) (comp string, boxed bool) {
 	if pt, ok := structT.Underlying().(*types.Pointer); ok {
 		structT = pt.Elem()
@@ -193,6 +265,9 @@ func (e *Engine) fieldComp(structT types.Type, i int) (comp string, boxed bool) 
 		return e.boxComp(ft), true
 	}
 	name := fmt.Sprintf("F$%s$%s", shortTypeKey(structT), st.Field(i).Name())
+	if nt, ok := types.Unalias(structT).(*types.Named); ok && nt.Obj().Pkg() != nil {
+		e.notePkgs(name, nt)
+	}
 	if nt, ok := structT.(*types.Named); ok && nt.Obj().Pkg() != nil && !st.Field(i).Exported() {
 		if e.privFields == nil {
 			e.privFields = map[string]string{}
@@ -213,6 +288,7 @@ func (e *Engine) boxComp(t types.Type) string {
 		switch u := types.Unalias(t).Underlying().(type) {
 		case *types.Pointer, *types.Map:
 			name += "$" + shortTypeKey(u)
+			e.notePkgs(name, u)
 		}
 	}
 	return e.comp(name, fmt.Sprintf("(Array Loc %s)", s))
@@ -229,6 +305,7 @@ func (e *Engine) mapDomComp(mt *types.Map) string {
 	vs := e.vc.sortOf(mt.Elem())
 	// one domain component per (key, value) type: maps of different types cannot alias
 	name := "MapDom$" + strings.Trim(ks, "|") + "$" + strings.Trim(vs, "|") + mapTypeTag(mt)
+	e.notePkgs(name, mt)
 	return e.comp(name, fmt.Sprintf("(Array Loc (Array %s Bool))", ks))
 }
 
@@ -236,6 +313,7 @@ func (e *Engine) mapValComp(mt *types.Map) string {
 	ks := e.vc.sortOf(mt.Key())
 	vs := e.vc.sortOf(mt.Elem())
 	name := "MapVal$" + strings.Trim(ks, "|") + "$" + strings.Trim(vs, "|") + mapTypeTag(mt)
+	e.notePkgs(name, mt)
 	return e.comp(name, fmt.Sprintf("(Array Loc (Array %s %s))", ks, vs))
 }
 
